@@ -101,6 +101,28 @@ Theorem C15_program : forall p s ds ds' rs', wfs s -> Rs s ds -> drun p ds = Som
 Proof. exact program_refines. Qed.
 Print Assumptions C15_program.
 
+(* the accumulator pattern  A = DyadCarrier() / DyadCarrier(shape=...);  A += B  (A -= B): a carrier without dyads
+   takes its unknown dimensions from the first carrier with dyads that is added and then represents (minus) that matrix *)
+Theorem C15_accumulate_into_empty : forall (minus : bool) c o od, wf c -> wf o -> R o od ->
+  us c = [] -> us o <> [] -> (ulen c < 0 \/ ulen c = ulen o) -> (vlen c < 0 \/ vlen c = vlen o) ->
+  exists c', (if minus then isub c o else iadd c o) = (c', None) /\ wf c' /\
+             R c' (mkdm (dr od) (dc od) (if minus then mmap copp (dmat od) else dmat od) (dflag od || cplx c)).
+Proof. exact iadd_into_empty_refines. Qed.
+Print Assumptions C15_accumulate_into_empty.
+
+(* the complex/real type is sound: when every float64-typed input holds real data (op_real: literal operands of the
+   program; wrs: the initial store), every carrier of the final store that reports iscomplex() = False represents a
+   matrix without imaginary parts.  (The other direction is the flag clause of R: complex only if numpy promotes.) *)
+Theorem C15_real_type : forall c, wf c -> wr c -> cplx c = false -> Forall (Forall creal) (todense c).
+Proof. exact real_type. Qed.
+Print Assumptions C15_real_type.
+
+Theorem C15_real_type_program : forall p s ds ds' rs', wfs s -> wrs s -> Rs s ds -> Forall op_real p ->
+  drun p ds = Some (ds', rs') ->
+  forall c, In c (fst (run p s)) -> cplx c = false -> Forall (Forall creal) (todense c).
+Proof. exact program_real_type. Qed.
+Print Assumptions C15_real_type_program.
+
 (* value semantics: a step changes no slot of the store other than the one it binds / mutates in place *)
 Theorem C15_value_semantics : forall o s n, writes o <> Some n -> (n < length s)%nat ->
   nth_error (fst (step o s)) n = nth_error s n.
@@ -131,6 +153,9 @@ Definition demo : list op :=
 
 Example C15_program_nonvacuous : exists ds rs, drun demo [] = Some (ds, rs) /\ length rs = 16%nat /\ length ds = 4%nat.
 Proof. eexists _, _. split; [vm_compute; reflexivity | split; reflexivity]. Qed.
+
+Example C15_demo_operands_typed : Forall op_real demo.
+Proof. unfold demo. repeat (constructor; cbn; intros; try discriminate; auto). Qed.
 
 Example C15_demo_outputs :
   nth 8 (snd (run demo [])) (Er OtherE) = Ok (OVec [(-9, 0); (-3, 0)] true) /\
